@@ -33,6 +33,14 @@ class NumArr:
             for r in self.data:
                 if isinstance(r, NumArr):
                     r.fixed = fixed
+        self._homogenise()
+
+    def _homogenise(self):
+        """numpy arrays have one dtype: integers stored next to reals are reals"""
+        flat = [y for x in self.data for y in (x.data if isinstance(x, NumArr) else [x])]
+        if any(isinstance(v, float) for v in flat) and all(isinstance(v, (int, float)) and not isinstance(v, bool) for v in flat) \
+                and any(isinstance(v, int) for v in flat):
+            self.data = [NumArr([float(y) for y in x.data]) if isinstance(x, NumArr) else float(x) for x in self.data]
 
     def _cast(self, v):
         if self.fixed == "int":
@@ -504,6 +512,22 @@ def _arr_equal(a, b, tol):
     return all(abs(x - y) <= tol[1] + tol[0] * abs(y) for x, y in zip(fa, fb))
 
 
+def _insert(a, i, v, axis=None):
+    """numpy.insert on 1-d data: the values are cast to the dtype of the array (a real inserted into an integer array is truncated)"""
+    arr_ = a if isinstance(a, NumArr) else NumArr(list(a))
+    vals = list(v) if _is_seq(v) else [v]
+    dt = arr_.dtype
+    if dt == "int":
+        vals = [int(x) if isinstance(x, float) and x == x and x not in (float("inf"), float("-inf")) else x for x in vals]
+    elif dt == "float":
+        vals = [float(x) if isinstance(x, int) and not isinstance(x, bool) else x for x in vals]
+    items = list(arr_.data)
+    if isinstance(i, int):
+        k_ = i if i >= 0 else len(items) + i
+        return NumArr(items[:k_] + vals + items[k_:], arr_.fixed)
+    raise Undecided("np.insert at %r" % (i,))
+
+
 def num_summaries():
     def arr(x, *a, **k):
         if isinstance(x, (list, tuple)) and x and all(isinstance(m, NumArr) and m.ndim == 2 for m in x):
@@ -558,7 +582,7 @@ def num_summaries():
         "np.unique": lambda a: NumArr(sorted(set(a))), "np.sort": lambda a: NumArr(sorted(a)),
         "np.take": lambda a, idx, **k: NumArr(a)[idx], "np.concatenate": lambda seq, **k: NumArr([x for s in seq for x in (s if _is_seq(s) else [s])]),
         "np.append": lambda a, b, axis=None: NumArr((list(NumArr(a).ravel()) if _is_seq(a) else [a]) + (list(NumArr(b).ravel()) if _is_seq(b) else [b])),
-        "np.insert": lambda a, i, v, axis=None: NumArr(list(a)[:i] + (list(v) if _is_seq(v) else [v]) + list(a)[i:]),
+        "np.insert": _insert,
         "np.hstack": lambda seq: NumArr([x for s_ in seq for x in (s_ if _is_seq(s_) else [s_])]),
         "np.union1d": lambda a, b: NumArr(sorted(set((list(NumArr(a).ravel()) if _is_seq(a) else [a]) + (list(NumArr(b).ravel()) if _is_seq(b) else [b])))),
         "np.atleast_1d": lambda a: a if isinstance(a, NumArr) else NumArr(list(a) if _is_seq(a) else [a]),
